@@ -593,7 +593,7 @@ pub(crate) fn lfnb_finish_case(n: u8) {
     }
 }
 
-// @obl props=C17,C19 tier=quick timeout=900 feat=fa,fn feat_quick=fn fns=LongNameBuilder::process,LongNameBuilder::into_buf,LongNameBuilder::truncate,LfnBuffer::set_len
+// @obl props=C17,C19 tier=quick timeout=900 feat=fn fns=LongNameBuilder::process,LongNameBuilder::into_buf,LongNameBuilder::truncate,LfnBuffer::set_len
 // @desc a run that is abandoned and restarted by a shorter one (slot 0x42 of another entry, then a complete 1-slot run): the name returned consists of the units of the restarted run only - nothing of the abandoned run leaks into it (the dynamic and the fixed-buffer build must agree)
 #[kani::proof]
 #[kani::unwind(264)]
